@@ -367,7 +367,7 @@ class PreserveUnits(Contract):
 
 class DifferenceUnits(Contract):
     name = "unyt.array._difference_units"
-    properties = ("C08", "C04", "C01")
+    properties = ("C08", "C04", "C01", "C11", "C13")
     may_raise = ()
 
     def formals(self, it):
@@ -454,6 +454,10 @@ class DifferenceUnits(Contract):
         if a.unit2 is not None:
             out.append(("point - its own delta unit keeps the point scale",
                         z3.Implies(z3.And(temp, differ, keep1), lab is a.unit1)))
+        out.append(("C11/C13: the label is one of the operands' units or is bound to the left operand's registry "
+                    "(not to the default registry)",
+                    lab is a.unit1 or lab is a.unit2 or
+                    (isinstance(lab, SObj) and lab.fields.get("registry") is a.unit1.fields.get("registry"))))
         return out
 
     def requires(self, it, a):
